@@ -81,6 +81,9 @@ def run(ctx):
                   floor=5, kind="GUARD") as r:
         strategy_rule(ctx, r)
 
+    with ctx.rule("C13.PRED", "the multi-line capability predicate (5 rows, seeded propagation with call models)", floor=5,
+                  exhaustive=True, kind="A3/TABLE") as r:
+        mlpred_rule(ctx, r)
     with ctx.rule("C13.INVERT", "both delivery routines take matches from MultiLine::find and advance via MultiLine::advance",
                   floor=2, kind="PARITY") as r:
         for name in ("sink", "sink_matched_inverted"):
@@ -136,6 +139,41 @@ def run(ctx):
         c16.stop_rule(ctx, r, only=lambda p: p.startswith(ML + "::"))
     with ctx.rule("C13.FINISH", "Core::finish exactly once in MultiLine::run (shared rule)", floor=1, kind="ONCE") as r:
         c16.once_rule(r, facts.fn(ML + "::run"), c16.CORE + "::finish", "Core::finish")
+
+
+def mlpred_rule(ctx, r):
+    """Searcher::multi_line_with_matcher decided by seeded propagation with call models (4 rows)."""
+    facts = ctx.facts
+    f = facts.fn(SEARCHER + "::multi_line_with_matcher")
+    from ..flow import Sccp, I, V, value_set
+    ML_ = SEARCHER + "::multi_line"
+    LT = MATCHER + "::line_terminator"
+    NM = MATCHER + "::non_matching_bytes"
+    EQ = "core::cmp::PartialEq::eq"
+    CONTAINS = "grep_matcher::ByteSet::contains"
+
+    def run(models):
+        def model(call, argv):
+            for names, val in models:
+                if call.is_(*names):
+                    return val
+            return None
+        sx = Sccp(f, call_model=model).run([(0, {})])
+        return {x for v in sx.ret_values.values() for x in value_set(v)}
+    rows = [
+        ("multi_line off", [((ML_,), I(0))], {I(0)}),
+        ("matcher terminator == searcher terminator", [((ML_,), I(1)), ((LT,), V("Some", None)), ((EQ,), I(1))], {I(0)}),
+        ("terminator byte ∈ non_matching_bytes", [((ML_,), I(1)), ((LT,), V("None", None)), ((NM,), V("Some", None)), ((CONTAINS,), I(1))], {I(0)}),
+        ("no promise from the matcher", [((ML_,), I(1)), ((LT,), V("None", None)), ((NM,), V("None", None))], {I(1)}),
+        ("promises do not cover the terminator", [((ML_,), I(1)), ((LT,), V("Some", None)), ((EQ,), I(0)), ((NM,), V("Some", None)), ((CONTAINS,), I(0))], {I(1)}),
+    ]
+    for label, models, want in rows:
+        got = run(models)
+        if got == want:
+            r.ok("pred|" + label, "%s ⇒ %s" % (label, bool(next(iter(want))[1])), fn=f)
+        else:
+            r.bad("pred|" + label, "multi_line_with_matcher: %s yields %s, specified %s" % (label, got, bool(next(iter(want))[1])), fn=f,
+                  construct="mlpred")
 
 
 STRATS = {
